@@ -19,6 +19,9 @@ CHECKS = {
             "The same NifFile object is saved three times per option set with the Sync/ref/string/block hooks installed; the canonical dumps of the three outputs (references as target "
             "identity, string indices as text) must be equal and ~60 read-only queries must answer identically after each save and (logical part) before the first. Inputs: real, "
             "float-mutated, API-built and one synthesised file per block type x version.", "3/C02"),
+    "C03": ("exploration", "runtime monitor: independent header re-labeller + independent parser comparing unknown-block payloads, order and string-table prefix of the saved output",
+            "Type-table entries are renamed outside the library (exhaustive subsets for small tables, singletons/full/random otherwise); the output of raw and default saves must keep "
+            "every block at its index with its type name, declared size and payload bytes, and every input string index must still denote the same string.", "3/C03"),
     "C05": ("exploration", "hook-based runtime monitor: set of NiRef/NiStringRef objects passing through Sync vs the owner's enumerators, over typed-synthesised instances of every block type x version",
             "All 304 registered block types x 14 versions are instantiated with populated fields by answering the reader through the typed read hook; every reference and "
             "string index that is actually serialised (both directions) must be reported by GetChildRefs/GetPtrs/GetStringRefs, and GetChildIndices must agree with GetChildRefs. "
